@@ -28,7 +28,13 @@ type verifV4CIDR struct {
 // all-zero value 0.0.0.0/0 is the resolver's "subnet not known" sentinel, so lengths start at 1.
 func verifSubnet(name string, plens []int) (ip.V4CIDR, uint32, uint32) {
 	a := verifU32(name + "-addr")
-	pl := uint8(plens[verifChoose(name+"-plen", len(plens))])
+	var pl uint8
+	if verifParam("SYMPLEN", 0) == 1 {
+		pl = verifU8(name + "-plen-free") // every prefix length 1..32 as one solver variable
+		verifAssume(pl >= 1 && pl <= 32)
+	} else {
+		pl = uint8(plens[verifChoose(name+"-plen", len(plens))])
+	}
 	mask := uint32(0xffffffff) << (32 - uint32(pl))
 	a &= mask
 	m := verifV4CIDR{addr: [4]byte{byte(a >> 24), byte(a >> 16), byte(a >> 8), byte(a)}, prefix: pl}
